@@ -13,7 +13,7 @@
  *
  * usage: drv_linsys CASEFILE SEED FROM TO
  * Every line of CASEFILE is one case:
- *   kind fn n m | perm | scale | rowmap | pattern
+ *   kind fn n m | perm | scale | rowmap | pattern | valueclass
  * (lists of ints; see families/linsys.py).  env: VT_TRACE=<path>.
  *
  * The harness rebuilds the linear system behind each call from the public
@@ -54,6 +54,7 @@ typedef struct lcase {
     int perm[MMAX], scale[MMAX], rowmap[MMAX];
     int pat[NMAX * NMAX];
     int nperm, nscale, nrowmap, npat;
+    int vc;			/* value class, see vc_names */
 } lcase_t;
 
 /* ---------------------------------------------------------------- helpers */
@@ -113,7 +114,7 @@ static int parse_list(char *s, int *out, int max)
 static int parse_case(const char *line, lcase_t *lc)
 {
     char buf[2048];
-    char *parts[5];
+    char *parts[6];
     int np = 0;
     char *p;
 
@@ -122,11 +123,11 @@ static int parse_case(const char *line, lcase_t *lc)
     buf[sizeof(buf) - 1] = '\0';
     p = buf;
     parts[np++] = p;
-    while ((p = strchr(p, '|')) != NULL && np < 5) {
+    while ((p = strchr(p, '|')) != NULL && np < 6) {
 	*p++ = '\0';
 	parts[np++] = p;
     }
-    if (np != 5)
+    if (np != 5 && np != 6)
 	return -1;
     if (sscanf(parts[0], "%15s %15s %d %d", lc->kind, lc->fn, &lc->n,
 		&lc->m) != 4)
@@ -135,9 +136,39 @@ static int parse_case(const char *line, lcase_t *lc)
     lc->nscale = parse_list(parts[2], lc->scale, MMAX);
     lc->nrowmap = parse_list(parts[3], lc->rowmap, MMAX);
     lc->npat = parse_list(parts[4], lc->pat, NMAX * NMAX);
+    lc->vc = np == 6 ? atoi(parts[5]) : 0;
     if (lc->n < 1 || lc->n > NMAX || lc->m > MMAX)
 	return -1;
     return 0;
+}
+
+/*
+ * value classes (LinSys.tla ValueClasses): how the non-zero entries of the
+ * case matrix are drawn
+ */
+enum { VC_GENERIC, VC_REAL, VC_IMAG, VC_REALSYM, VC_PHASE, VC_MIXED,
+    VC_SMALLDIAG, VC_COUNT };
+static const char *vc_names[] = { "generic", "real", "imag", "realsym",
+    "phase", "mixed", "smalldiag" };
+
+static double complex draw_entry(int vc, double complex common)
+{
+    double r = urand(0.5, 2.0);
+    double sgn = vt_below(&rng, 2) ? 1.0 : -1.0;
+
+    switch (vc) {
+    case VC_REAL:
+    case VC_REALSYM:
+	return sgn * r;
+    case VC_IMAG:
+	return I * sgn * r;
+    case VC_PHASE:
+	return common * (sgn * r);
+    case VC_MIXED:
+	return vt_below(&rng, 2) ? sgn * r : I * sgn * r;
+    default:
+	return cphase() * r;
+    }
 }
 
 static double pow2(int cls)
@@ -152,19 +183,29 @@ static double pow2(int cls)
  *   actual pattern (after permutation / duplication) goes to apat
  * Entry (i,j) = random value where pat[perm[i]][j] = 1, exact 0 elsewhere.
  * graded: a third of the entries is 2^-30 times smaller.
+ * The non-zero values follow the case's value class (lc->vc).
  * rowmap[i] != i+1 (1-based) makes row i an exact copy of row rowmap[i].
  */
 static void build_matrix(const lcase_t *lc, int graded, double complex *G0,
 	double complex *G, int *apat)
 {
-    int n = lc->n;
+    int n = lc->n, vc = lc->vc;
     double complex base[NMAX * NMAX];
+    double complex common = cphase();
 
     for (int i = 0; i < n; ++i) {
 	for (int j = 0; j < n; ++j) {
 	    int bit = lc->npat == n * n ? lc->pat[i * n + j] : 1;
 
-	    base[i * n + j] = bit ? cphase() * urand(0.5, 2.0) : 0.0;
+	    base[i * n + j] = bit ? draw_entry(vc, common) : 0.0;
+	    /* real symmetric: mirror the upper triangle where the pattern
+	     * has both entries */
+	    if (vc == VC_REALSYM && j < i && bit &&
+		    (lc->npat != n * n || lc->pat[j * n + i]))
+		base[i * n + j] = base[j * n + i];
+	    /* small diagonal, large off-diagonals: pivoting required */
+	    if (vc == VC_SMALLDIAG && i == j)
+		base[i * n + j] *= ldexp(1.0, -30);
 	    /* graded: some entries 2^-30 times smaller than the others
 	     * (the case is used only if the matrix stays well conditioned) */
 	    if (graded && vt_below(&rng, 3) == 0)
@@ -446,8 +487,8 @@ static void do_conv(const lcase_t *lc)
     if (dbg)
 	fprintf(stderr, "conv %s n=%d fin=%d huge=%d res=%d ratio=%.3g "
 		"cond=%.3Lg\n", fn, n, fin, huge, res, ratio, cond);
-    vt_put("{\"e\":\"Conv\",\"fn\":\"%s\",\"n\":%d,\"zv\":%d,\"gr\":%d,", fn, n,
-	    zvar, graded);
+    vt_put("{\"e\":\"Conv\",\"fn\":\"%s\",\"n\":%d,\"zv\":%d,\"gr\":%d,\"vc\":\"%s\",",
+	    fn, n, zvar, graded, vc_names[lc->vc % VC_COUNT]);
     put_ints("p", apat, n * n);
     vt_put(",");
     put_ints("rowmap", lc->rowmap, lc->nrowmap);
@@ -566,7 +607,8 @@ static void do_ab(const lcase_t *lc)
     if (dbg)
 	fprintf(stderr, "ab n=%d rc=%d err=%d fin=%d res=%d ratio=%.3g "
 		"cond=%.3Lg\n", n, rc, err, fin, res, ratio, cond);
-    vt_put("{\"e\":\"ApplyAB\",\"n\":%d,\"gr\":%d,", n, lc->m >= 10);
+    vt_put("{\"e\":\"ApplyAB\",\"n\":%d,\"gr\":%d,\"vc\":\"%s\",", n, lc->m >= 10,
+	    vc_names[lc->vc % VC_COUNT]);
     put_ints("p", apat, n * n);
     vt_put(",");
     put_ints("rowmap", lc->rowmap, lc->nrowmap);
@@ -586,7 +628,7 @@ typedef struct m8 {
     double complex ed[NMAX], a[NMAX], b[NMAX], em[NMAX];
 } m8_t;
 
-static void m8_draw(m8_t *e, int p, const int *scale)
+static void m8_draw(m8_t *e, int p, const int *scale, int vc)
 {
     e->p = p;
     for (int i = 0; i < p; ++i) {
@@ -596,6 +638,36 @@ static void m8_draw(m8_t *e, int p, const int *scale)
 	e->a[i] = cphase() * urand(0.8, 1.2) * d;
 	e->b[i] = cphase() * urand(0.8, 1.2);
 	e->em[i] = crand(0.2);
+	if (vc == VC_REAL || vc == VC_REALSYM) {
+	    /* a purely real instrument: with real standards every system
+	     * the solve and the apply build is purely real */
+	    e->ed[i] = creal(e->ed[i]);
+	    e->a[i] = (creal(e->a[i]) >= 0.0 ? 1.0 : -1.0) * cabs(e->a[i]);
+	    e->b[i] = (creal(e->b[i]) >= 0.0 ? 1.0 : -1.0) * cabs(e->b[i]);
+	    e->em[i] = creal(e->em[i]);
+	}
+    }
+}
+
+/* reflection coefficient / s-parameter value of the case's value class */
+static double complex draw_gamma(int vc, double lo, double hi,
+	double complex common)
+{
+    double r = urand(lo, hi);
+    double sgn = vt_below(&rng, 2) ? 1.0 : -1.0;
+
+    switch (vc) {
+    case VC_REAL:
+    case VC_REALSYM:
+	return sgn * r;
+    case VC_IMAG:
+	return I * sgn * r;
+    case VC_PHASE:
+	return common * (sgn * r);
+    case VC_MIXED:
+	return vt_below(&rng, 2) ? sgn * r : I * sgn * r;
+    default:
+	return cphase() * r;
     }
 }
 
@@ -648,9 +720,11 @@ static void do_tall(const lcase_t *lc)
     char name[24];
     static int serial;
 
-    m8_draw(&e, 1, NULL);
+    double complex common = cphase();
+
+    m8_draw(&e, 1, NULL, lc->vc);
     for (int i = 0; i < m; ++i) {
-	gamma[i] = zero ? 0.0 : cphase() * urand(0.3, 1.0);
+	gamma[i] = zero ? 0.0 : draw_gamma(lc->vc, 0.3, 1.0, common);
 	h[i] = -1;
     }
     vt_cb_reset();
@@ -684,7 +758,8 @@ static void do_tall(const lcase_t *lc)
 	if (LIB(vnacal_add_calibration(vcp, name, vnp)) != -1 &&
 		(ci = LIB(vnacal_find_calibration(vcp, name))) >= 0) {
 	    /* forward-model residual of the applied result */
-	    double complex s_true = crand(0.8), mv, s_out, m_back;
+	    double complex s_true = draw_gamma(lc->vc, 0.05, 0.8, common);
+	    double complex mv, s_out, m_back;
 	    double complex *mp[1] = { &mv };
 	    vnadata_t *vdp = LIB(vnadata_alloc(vt_errfn, NULL));
 
@@ -703,8 +778,8 @@ static void do_tall(const lcase_t *lc)
 	vt_cb = saved;
     }
 emit:
-    vt_put("{\"e\":\"Solve\",\"type\":\"%s\",\"m\":%d,\"n\":3,", t1_names[type],
-	    m);
+    vt_put("{\"e\":\"Solve\",\"type\":\"%s\",\"vc\":\"%s\",\"m\":%d,\"n\":3,",
+	    t1_names[type], vc_names[lc->vc % VC_COUNT], m);
     put_ints("rowmap", lc->rowmap, m);
     vt_put(",\"zero\":%d,\"stage\":%d,\"rec\":%d", zero, stage, rec);
     put_result(rc == 0, err);
@@ -815,7 +890,7 @@ static void do_applym(const lcase_t *lc)
     char name[24];
     static int serial;
 
-    m8_draw(&e, p, lc->nscale == p ? lc->scale : NULL);
+    m8_draw(&e, p, lc->nscale == p ? lc->scale : NULL, lc->vc);
     vt_cb_reset();
     vnp = LIB(vnacal_new_alloc(vcp, type ? VNACAL_U8 : VNACAL_T8, p, p, 1));
     if (vnp != NULL && LIB(vnacal_new_set_frequency_vector(vnp, &f)) == 0 &&
@@ -828,9 +903,18 @@ static void do_applym(const lcase_t *lc)
     }
     if (dbg && !setup)
 	fprintf(stderr, "applym setup failed: %s\n", vt_cb.last);
-    for (int i = 0; i < p * p; ++i) {
-	S[i] = crand(0.6);
-	mp[i] = &M[i];
+    {
+	double complex common = cphase();
+
+	for (int i = 0; i < p * p; ++i) {
+	    S[i] = draw_gamma(lc->vc, 0.05, 0.6, common);
+	    mp[i] = &M[i];
+	}
+	if (lc->vc == VC_REALSYM) {
+	    for (int i = 0; i < p; ++i)
+		for (int j = 0; j < i; ++j)
+		    S[i * p + j] = S[j * p + i];
+	}
     }
     m8_measure(&e, S, M);
     vdp = LIB(vnadata_alloc(vt_errfn, NULL));
@@ -864,7 +948,8 @@ static void do_applym(const lcase_t *lc)
     if (dbg)
 	fprintf(stderr, "applym p=%d type=%d setup=%d rc=%d worst=%.3g\n", p,
 		type, setup, rc, worst);
-    vt_put("{\"e\":\"ApplyM\",\"type\":\"%s\",\"p\":%d,", type ? "U8" : "T8", p);
+    vt_put("{\"e\":\"ApplyM\",\"type\":\"%s\",\"vc\":\"%s\",\"p\":%d,", type ? "U8" : "T8",
+	    vc_names[lc->vc % VC_COUNT], p);
     put_ints("sc", lc->scale, lc->nscale);
     vt_put(",\"det\":\"%s\",\"rev\":%d,\"setup\":%d,\"fin\":%d,\"res\":%d",
 	    exact || p == 1 ? "exact" : "over", lc->nperm > 0, setup, fin, res);
@@ -902,7 +987,7 @@ static void do_abadd(const lcase_t *lc)
     static int serial;
     double complex S[4] = { 0.0, 1.0, 1.0, 0.0 };
 
-    m8_draw(&e, p, NULL);
+    m8_draw(&e, p, NULL, VC_GENERIC);
     build_matrix(lc, lc->m >= 10, G0, G, apat);
     qual = oc_cond(2, G0) <= 1.0e6L;
     vt_cb_reset();
@@ -979,7 +1064,7 @@ static void do_abadd(const lcase_t *lc)
 	}
     }
 emit:
-    vt_put("{\"e\":\"AddAB\",\"n\":2,");
+    vt_put("{\"e\":\"AddAB\",\"n\":2,\"vc\":\"%s\",", vc_names[lc->vc % VC_COUNT]);
     put_ints("p", apat, 4);
     vt_put(",");
     put_ints("rowmap", lc->rowmap, lc->nrowmap);
